@@ -15,7 +15,7 @@ func init() {
 	base := "a history through the real Listen loop (mock clock) compared with the model at every scrape. "
 
 	// ------------------------------------------------------------ C05 labels
-	c05 := &Component{Name: "pipe_c05", Exec: execPipe, Rule: base + "C05 stream: rules with static and $n label templates whose keys clash with tag keys, honor_labels on/off, type-filtered rules so that samples of one line match different rules; lines group samples in all ways (single, multi-sample with mixed types, extended aggregation) with tags in all four syntaxes; lines are repeated so that cached mapping results are reused. Non-trivial: a multi-sample line whose samples have different types under a config with a type-filtered rule carrying labels."}
+	c05 := &Component{Name: "pipe_c05", Exec: execPipe, Rule: base + "C05 stream: rules with static and $n label templates whose keys clash with tag keys, honor_labels on/off, type-filtered rules so that samples of one line match different rules; lines group samples in all ways (single, multi-sample with mixed types, extended aggregation) with tags in all four syntaxes; lines are repeated so that cached mapping results are reused; every sixth line carries a sample the exporter refuses (negative, NaN or -Inf counter increment, negative sampling rate) with tags of its own, which must not show on any later sample. Non-trivial: a multi-sample line whose samples have different types under a config with a type-filtered rule carrying labels."}
 	c05.Gen = func(r *rand.Rand, tier string, emit Emit) {
 		// corpus: the repaired leak
 		{
@@ -32,6 +32,17 @@ func init() {
 			h.sweep()
 			h.scrape()
 			emit(h.op(), true, "corpus")
+			// a refused sample's tags must not reach the next sample (either order of keys, same and other rule)
+			for _, bad := range []string{"a.b:-1|c|#shard:7", "a.c#shard=7:NaN|c", "a.b:1|c|@-1|#shard:7,zone:x"} {
+				h = &pipeHist{flags: "1111"}
+				h.load(&rawCfg{rules: []rawRule{{match: "a.*", name: "m_$1", labels: [][2]string{{"job", "app"}}}}})
+				h.line("a.b:1|c|#region:eu")
+				h.line(bad)
+				h.line("a.b:2|c|#region:eu")
+				h.line("a.c:5|ms|#region:eu")
+				h.scrape()
+				emit(h.op(), true, "corpus")
+			}
 		}
 		n := 3000
 		if tier == "thorough" {
@@ -65,13 +76,32 @@ func init() {
 				cfg.rules = append(cfg.rules, ru)
 			}
 			h.load(cfg)
-			mixed := false
+			mixed, refused := false, false
 			var prev []string
 			k := 4 + r.Intn(8)
 			for j := 0; j < k; j++ {
 				var l string
 				if len(prev) > 0 && r.Intn(3) == 0 {
 					l = prev[r.Intn(len(prev))]
+				} else if r.Intn(6) == 0 {
+					// a sample the exporter REFUSES (negative / NaN counter increment, also through the sampling rate), with
+					// tags of its own: nothing of it may show in the label set of any later sample
+					l = genWellFormedLine(r, []string{"a.b", "a.b", "a.c", "b.b", "a"}, 0.9)
+					for _, v := range []string{"1", "2", "0.5", "100", "3", "250", "7"} {
+						l = strings.Replace(l, ":"+v+"|c", ":"+pick(r, []string{"-1", "NaN", "-0.5", "-inf"})+"|c", 1)
+					}
+					if !strings.Contains(l, "|c") {
+						i := strings.IndexAny(l, ":")
+						tagsOf := ""
+						if k := strings.Index(l, "|#"); k >= 0 {
+							tagsOf = l[k:]
+						}
+						if i > 0 {
+							l = l[:i] + ":" + pick(r, []string{"-1", "NaN", "-2.5", "1|c|@-1"}) + "|c" + tagsOf
+							l = strings.Replace(l, "|c|@-1|c", "|c|@-1", 1)
+						}
+					}
+					refused = true
 				} else {
 					l = genWellFormedLine(r, []string{"a.b", "a.b", "a.c", "b.b", "a"}, 0.7)
 				}
@@ -82,7 +112,11 @@ func init() {
 				h.line(l)
 				h.scrape()
 			}
-			emit(h.op(), mixed && typed, "hist")
+			tag := "hist"
+			if refused {
+				tag = "hist_refused"
+			}
+			emit(h.op(), mixed && typed, tag)
 		}
 	}
 	register(c05)
